@@ -76,7 +76,8 @@ def _gen_type(p, rng, depth, elem_pool=None):
         if r2 < 0.70:
             return rng.choice(elems)
         if r2 < 0.80:
-            return nbytes_case(p, rng.choice([1, 2, 3, 4, 6, 8, 16, 33]))
+            # -1: "all remaining bytes" (kind "rest": only alone or as the last member of a structure)
+            return nbytes_case(p, rng.choice([1, 2, 3, 4, 6, 8, 16, 33, -1, -1]))
         if r2 < 0.88:
             return fixstr_case(p, rng.choice([1, 2, 3, 4, 5, 8, 16, 20, 82, 83, 480]), rng.choice(["UDINT", "UDINT", "DINT", "UINT"]))
         if r2 < 0.94:
@@ -285,7 +286,9 @@ def gen_value(desc, rng, small=False):
     if k == "bits":
         return [rng.random() < 0.5 for _ in range(8 * desc[1])]
     if k == "bytes":
-        n = desc[1] if desc[1] != -1 else rng.randint(0, 12)
+        # n_bytes(-1), "all remaining bytes": the empty value is outside the judged domain - with nothing left to read the
+        # library raises BufferEmptyError, which is what C08 prescribes when no byte remains where a value should start
+        n = desc[1] if desc[1] != -1 else rng.randint(1, 12)
         return bytes(rng.randrange(256) for _ in range(n))
     if k == "array":
         n, el = desc[1], desc[2]
